@@ -141,6 +141,26 @@ Theorem c19_moasha_enters_once :
 Proof. exact bracket_on_result_nodup. Qed.
 Print Assumptions c19_moasha_enters_once.
 
+(* Whole histories (any interleaving of reports and completions of any trials, any priority function, reduction
+   factor and max_t), from any bracket state without duplicates -- in particular the empty rungs a bracket
+   starts with: every rung keeps its milestone, everything recorded stays recorded in the same order (later
+   states only append: the competitors a trial is ranked against are never forgotten), and no trial is ever
+   recorded twice at a rung. *)
+Theorem c19_moasha_history_monotone :
+  forall prio rf max_t evs b, Forall rung_nodup b ->
+    bracket_ext b (moasha_run prio rf max_t b evs) /\ Forall rung_nodup (moasha_run prio rf max_t b evs).
+Proof. intros prio rf max_t evs b. exact (moasha_run_invariant prio rf max_t evs b). Qed.
+Print Assumptions c19_moasha_history_monotone.
+
+Example c19_history_example :
+  let b0 := [{| milestone := 3; recorded := [] |}; {| milestone := 1; recorded := [] |}] in
+  let prio := fun X : list vec => map (fun _ => 0) X in
+  Forall rung_nodup b0 /\
+  map (fun r => map fst (recorded r))
+      (moasha_run prio 3 9 b0 [MReport 0 1 (fins [1]); MReport 1 3 (fins [2]); MComplete 1 3 (fins [2]); MReport 0 3 (fins [0])])
+  = [[1; 0]; [0; 1]]%Z.
+Proof. split; [repeat constructor; intros [] | vm_compute; reflexivity]. Qed.
+
 (* ---- MOASHA follows the Pareto rank (NonDominatedPriority after fix bd08f9a) ----------------
    The priority of a listed point is its position in the non-dominated sort; points cut off by
    max_num_samples share the lowest priority len(sorted). *)
